@@ -98,6 +98,11 @@ def build_traces(path, tier, seed):
                 arg[-1] = arg[0] + 1
             x = np.asarray(arg, dtype=float)
         allp, mx, mn, co, cp = impl(arg)
+        if tid % 6 == 1:
+            import eqsig
+            from eqsig.fns import peaks_and_crossings as pc_
+            allp = pc_.get_peak_indices(eqsig.Signal(np.asarray(arg), 0.01))       # signal-level wrapper
+            co = pc_.get_n_cyc_array(arg)                                           # defaults: opt='all', start='origin'
         recs.append({"tid": tid, "x": enc_seq(x), "all": [int(i) for i in allp], "mx": [int(i) for i in mx],
                      "mn": [int(i) for i in mn], "cyco": enc_seq(co), "cycp": enc_seq(cp)})
         meta[tid] = {"n": n, "head": [float(v) for v in x[:8]], "npeaks": len(allp), "container": "ndarray" if tid % 4 else "list"}
